@@ -42,6 +42,21 @@ def main():
         cases.append(("generated", syngen.render(m, rng.fork("r%d" % i)), syngen.sx(m), ""))
     for name, src in faultgen.corpus():
         cases.append(("corpus", src, None, name))
+    # the documented limits, at the limit and on both sides of it: both parsers accept 127 steps / address-of operators and
+    # reject 128; literals with more digits than bits whose value fits (F76: the second generation stopped at 127 steps)
+    def prog(body):
+        return "fn main()\n{\n\t%s\n}\n" % body
+    for n in (1, 2, 126, 127, 128):
+        for tag, body in (("steps", "var x = a%s;" % ("[0]" * n)), ("members", "var x = a%s;" % (".m" * n)),
+                          ("mixed", "var x = a%s;" % ("[i].m" * (n // 2) + "[0]" * (n % 2))),
+                          ("lhs-steps", "a%s = 1;" % ("[0]" * n)), ("addr", "var x = %sa;" % ("&" * n)),
+                          ("ptrtype", "var x: %si32 = a;" % ("&" * n)), ("len-addr", "var x = |%sa|;" % ("&" * n)),
+                          ("lhs-addr", "%sa = 1;" % ("&" * n))):
+            cases.append(("boundary", prog(body), None, "%s%d" % (tag, n)))
+    for n in (127, 128, 129, 200):
+        cases.append(("boundary", prog("var x = 0b%s101;" % ("0" * (n - 3))), None, "bin%d" % n))
+        cases.append(("boundary", prog("var x = 0x%s5;" % ("0" * (n - 1))), None, "hex%d" % n))
+        cases.append(("boundary", prog("var x = 0b%s;" % ("1" * n)), None, "binones%d" % n))
     srcs = [c[1] for c in cases]
     dx = run_harness(["delta\txml\t" + esc(s.encode()) for s in srcs])
     al = run_harness(["alphaast\t" + esc(s) for s in srcs])
@@ -71,6 +86,15 @@ def main():
             dist["corpus: not accepted by the first generation"] += 1
             if h == "ok" and not re.search(r"\bimport\b|\breturn\b", src):
                 pass    # the second generation is allowed to accept more (semantic errors are not its business)
+            continue
+        if cls == "boundary" and alpha_tree is None:
+            # beyond a limit: both generations must reject
+            dist["boundary: rejected by the first generation"] += 1
+            if h == "ok":
+                rep.violation("boundary:" + cases[i][3], {"why": "the second generation accepts what the first rejects at a documented limit",
+                                                          "source": src, "implementation": a[:200], "first_generation": b[:200]})
+            else:
+                agreeing += 1
             continue
         delta_tree = None
         if h == "lexerr":
